@@ -154,3 +154,54 @@ def random_syntax_stmt(rng, depth, leaves):
         e = random_syntax_stmt(rng, depth - 1, leaves) if rng.random() < 0.55 else None
         return ('ifs', t, e)
     return rng.choice(leaves)
+
+
+def smart_body(rng, depth, n, visible, labels_pool, outer_labels=()):
+    """Mostly-valid bodies: uses of visible variables, fresh declarations,
+    forward gotos whose labels are placed later in the same block (or left to
+    an enclosing block), so that E482 situations (declaration between goto and
+    label, use after the label) are frequent."""
+    vis = list(visible)
+    out = []
+    wanted = []   # (label, index after which it may be placed)
+    for _ in range(n):
+        x = rng.random()
+        if x < 0.22:
+            pool = [v for v in ('x', 'y', 'z', 'w', 'v', 'u') if v not in vis] or ['x']
+            v = rng.choice(pool) if rng.random() < 0.93 else rng.choice(vis or ['x'])
+            if vis and rng.random() < 0.4: out.append(('declu', v, rng.choice(vis)))
+            else: out.append(('decl', v))
+            if v not in vis: vis.append(v)
+        elif x < 0.50:
+            if vis and rng.random() < 0.95: out.append(('use', rng.choice(vis)))
+            else: out.append(('use', rng.choice(['x', 'y', 'q'])))
+        elif x < 0.68:
+            l = rng.choice(labels_pool)
+            out.append((rng.choice(['goto', 'cgoto']), l))
+            wanted.append((l, len(out)))
+        elif x < 0.80 and depth > 0:
+            out.append(('block', smart_body(rng, depth - 1, rng.randint(0, 4), vis, labels_pool)))
+        elif x < 0.90 and depth > 0:
+            t = smart_body(rng, depth - 1, rng.randint(0, 3), vis, labels_pool)
+            e = smart_body(rng, depth - 1, rng.randint(0, 3), vis, labels_pool) if rng.random() < 0.4 else None
+            out.append(('if', t, e))
+        else:
+            out.append(('assign',))
+    # place labels for gotos of this block (and of nested blocks, found by scanning)
+    def gotos(ss, acc):
+        for st in ss:
+            if st[0] in ('goto', 'cgoto'): acc.add(st[1])
+            elif st[0] == 'block': gotos(st[1], acc)
+            elif st[0] == 'if':
+                gotos(st[1], acc)
+                if st[2] is not None: gotos(st[2], acc)
+        return acc
+    placed = set()
+    for l in sorted(gotos(out, set())):
+        if l == 'return' or rng.random() < 0.25: continue
+        # earliest position: after the first statement containing a goto to l
+        first = next(i for i, st in enumerate(out) if l in gotos([st], set()))
+        pos = rng.randint(first + 1, len(out))
+        out.insert(pos, ('label', l))
+        placed.add(l)
+    return out
